@@ -1,5 +1,5 @@
 (* C19, slicing: what the slicing model keeps consists of visible messages only, and what it removes consists of invisible messages only *)
-From Coq Require Import List String Bool Arith Lia.
+From Coq Require Import List String Ascii Bool Arith Lia.
 From FV Require Import Base.Re Base.Grammar Model.ForecastM Model.SliceM Proofs.C19.
 Import ListNotations.
 Open Scope list_scope.
@@ -169,3 +169,34 @@ Proof.
   - discriminate.
 Qed.
 End Sound.
+
+(* what the two visibility tests say about a message name "s:r:<n>" whose party texts contain no colon *)
+Fixpoint nocolon (s : string) : bool :=
+  match s with EmptyString => true | String c s' => negb (Ascii.eqb c ":"%char) && nocolon s' end.
+
+Definition mname (s r n : string) : msg := (s ++ ":" ++ r ++ ":" ++ n)%string.
+
+Lemma sender_of_app s x : nocolon s = true -> sender_of (s ++ String ":"%char x)%string = Some s.
+Proof.
+  induction s as [|c s IH]; cbn; [reflexivity|]. intros H. apply andb_true_iff in H. destruct H as [Hc Hs].
+  destruct (Ascii.eqb c ":"%char); [discriminate|]. rewrite (IH Hs). reflexivity.
+Qed.
+
+Lemma after_colon_app s x : nocolon s = true -> after_colon (s ++ String ":"%char x)%string = Some x.
+Proof.
+  induction s as [|c s IH]; cbn; [reflexivity|]. intros H. apply andb_true_iff in H. destruct H as [Hc Hs].
+  destruct (Ascii.eqb c ":"%char); [discriminate|]. exact (IH Hs).
+Qed.
+
+Lemma visible_mname keep s r n : nocolon s = true ->
+  visible keep (mname s r n) = existsb (String.eqb s) keep.
+Proof. intros Hs. unfold visible, mname. cbn [append]. rewrite (sender_of_app s _ Hs). reflexivity. Qed.
+
+Lemma visible_io_mname keep s r n : nocolon s = true -> nocolon r = true ->
+  visible_io keep (mname s r n) =
+  (String.eqb r "None" || existsb (String.eqb s) keep || existsb (String.eqb r) keep).
+Proof.
+  intros Hs Hr. unfold visible_io, recipient_of, mname. cbn [append].
+  rewrite (sender_of_app s _ Hs), (after_colon_app s _ Hs), (sender_of_app r _ Hr).
+  destruct (String.eqb r "None"); reflexivity.
+Qed.
